@@ -328,4 +328,59 @@ theorem isOkRet_some {o : Option Ev} (h : isOkRet o = true) : ∃ x rs, o = some
     cases r <;> simp only at h <;> try (simp at h)
     exact ⟨_, _, rfl⟩
 
+/-! ## the sends of a call, by number -/
+
+theorem mem_sendsIn {log : Log} {c a b x : Nat} : x ∈ sendsIn log c a b ↔ x < b ∧ a < x ∧ sendAt log x = some c := by
+  simp [sendsIn, List.mem_filter, List.mem_range]
+
+/-- the m-th send of `c` in (a, b): where it is, and that exactly m sends of the call precede it -/
+theorem sendsIn_nth (log : Log) (c a : Nat) : ∀ (b m p : Nat), (sendsIn log c a b)[m]? = some p →
+    a < p ∧ p < b ∧ sendAt log p = some c ∧ sendsIn log c a p = (sendsIn log c a b).take m
+  | 0, m, p, h => by simp [sendsIn] at h
+  | b + 1, m, p, h => by
+    have hs := sendsIn_succ log c a b
+    rw [hs] at h
+    rw [hs]
+    rcases Nat.lt_or_ge m (sendsIn log c a b).length with hlt | hge
+    · rw [List.getElem?_append_left hlt] at h
+      obtain ⟨h1, h2, h3, h4⟩ := sendsIn_nth log c a b m p h
+      refine ⟨h1, by omega, h3, ?_⟩
+      rw [h4, List.take_append_of_le_length (by omega)]
+    · rw [List.getElem?_append_right hge] at h
+      split at h
+      · next hc =>
+        have hm : m = (sendsIn log c a b).length := by
+          false_or_by_contra; rename_i hn
+          have : m - (sendsIn log c a b).length = (m - (sendsIn log c a b).length - 1) + 1 := by omega
+          rw [this] at h
+          simp at h
+        subst hm
+        simp only [Nat.sub_self, List.getElem?_cons_zero, Option.some.injEq] at h
+        subst h
+        refine ⟨hc.1, by omega, hc.2, ?_⟩
+        simp
+      · simp at h
+
+theorem getD_of_getElem? {l : List Nat} {m p : Nat} (h : l[m]? = some p) : l.getD m 0 = p := by
+  simp [List.getD, h]
+
+/-- two consecutive sends of a call: no send of `c` lies between them -/
+theorem sendsIn_consecutive (log : Log) (c a b m p q : Nat) (hp : (sendsIn log c a b)[m]? = some p)
+    (hq : (sendsIn log c a b)[m + 1]? = some q) :
+    p < q ∧ ∀ x, p < x → x < q → sendAt log x ≠ some c := by
+  obtain ⟨hap, _, _, h4⟩ := sendsIn_nth log c a b m p hp
+  obtain ⟨_, _, _, k4⟩ := sendsIn_nth log c a b (m + 1) q hq
+  have hmem : ∀ x, x ∈ sendsIn log c a q ↔ x ∈ sendsIn log c a p ∨ x = p := by
+    intro x
+    rw [k4, h4, List.take_add_one, hp]
+    simp
+  have hpq : p < q := by
+    have := (hmem p).2 (Or.inr rfl)
+    exact (mem_sendsIn.1 this).1
+  refine ⟨hpq, fun x h1 h2 hs => ?_⟩
+  have hx : x ∈ sendsIn log c a q := mem_sendsIn.2 ⟨h2, by omega, hs⟩
+  rcases (hmem x).1 hx with h | h
+  · have := (mem_sendsIn.1 h).1; omega
+  · omega
+
 end Frappy.Comm
